@@ -28,7 +28,7 @@ func VerifInterleave() {
 	vReach("interleave")
 }
 
-var vnHistPre = []string{"", "/*!a*/", "/*!a*/x;", "/*!a*//*!b*/", "x=`a${b}c`;", "class A{#p;m(){this.#p}}", "l:for(;;)break l;"}
+var vnHistPre = []string{"", "/*!a*/", "/*!a*/x;", "/*!a*//*!b*/", "x=`a${b}c`;", "class A{#p;m(){this.#p}}", "l:for(;;)break l;", "{{{{{{{{{{{{a}}}}}}}}}}}}", "function f(){if(a){for(;;){while(b){try{c}catch(d){switch(e){case 1:{{{{g}}}}}}}}}}"}
 
 func vnParseJS(src []byte, o Options) (string, bool) {
 	ast, err := Parse(parse.NewInputBytes(append(make([]byte, 0, len(src)+1), src...)), o)
